@@ -140,6 +140,20 @@ func unalias(v reflect.Value) reflect.Value {
 	return c
 }
 
+// containerOperand returns the container an index, slice or delete expression works on, as a value: what is inside an
+// interface, and for a slice, map or string read from a slot (an element, a field) a copy of the header, so that the
+// index expressions evaluated afterwards cannot change which container is meant - as with a container held in a variable.
+func containerOperand(v reflect.Value) reflect.Value {
+	if v.Kind() == reflect.Interface && !v.IsNil() {
+		v = v.Elem()
+	}
+	switch v.Kind() {
+	case reflect.Slice, reflect.Map, reflect.String:
+		return unalias(v)
+	}
+	return v
+}
+
 func isNil(v reflect.Value) bool {
 	switch v.Kind() {
 	case reflect.Chan, reflect.Func, reflect.Interface, reflect.Map, reflect.Ptr, reflect.Slice:
